@@ -6,10 +6,10 @@ import (
 	"errors"
 	"io"
 
+	"github.com/ipfs/boxo/internal/verifrt"
 	mdag "github.com/ipfs/boxo/ipld/merkledag"
 	help "github.com/ipfs/boxo/ipld/unixfs/importer/helpers"
 	uio "github.com/ipfs/boxo/ipld/unixfs/io"
-	"github.com/ipfs/boxo/internal/verifrt"
 	ipld "github.com/ipfs/go-ipld-format"
 )
 
@@ -257,7 +257,7 @@ func HarnessC10WriteAt() {
 		mv = fill
 	}
 	for i := 0; i < K; i++ {
-		n := verifrt.NondetRange("n", 1, 2)
+		n := verifrt.NondetRange("n", 1, verifrt.Param("NMAX", 2))
 		b := verifrt.NondetBytes("b", n)
 		off := verifrt.NondetI64("off")
 		verifrt.Assume(off >= 0)
